@@ -150,7 +150,7 @@ class StmtMixin:
                     has = vals.map_has(cont, k)
                     self.raise_(st2, "KeyError", z3.Not(has))
                     st2 = st2.assume(has)
-                    cur = self.assign_to(st2, t.value, vals.map_del(cont, k))
+                    cur = self.assign_to(st2, t.value, vals.map_del(cont, k), mut=True)
                 elif isinstance(cont.t, TSeq):
                     i = coerce(idx, INT).z
                     n = cont.zs[0]
@@ -158,7 +158,7 @@ class StmtMixin:
                     self.raise_(st2, "IndexError", z3.Not(ok))
                     st2 = st2.assume(ok)
                     st3, r = self.seq_delete_at(st2, cont, z3.If(i < 0, i + n, i))
-                    cur = self.assign_to(st3, t.value, r)
+                    cur = self.assign_to(st3, t.value, r, mut=True)
                 else:
                     raise EngineError("del on " + str(cont.t))
             elif isinstance(t, ast.Name):
@@ -222,7 +222,10 @@ class StmtMixin:
                     return st.with_local(tgt.id, st.lookup(value_node.id))
             if not isinstance(v, V):
                 return st.with_local(tgt.id, v)
-            return self.write_local(st, tgt.id, v)
+            s2 = self.write_local(st, tgt.id, v)
+            if len(s2.frames) == 1:
+                s2.ghost["$detached"] = s2.ghost.get("$detached", frozenset()) | {tgt.id}
+            return s2
         if isinstance(tgt, (ast.Tuple, ast.List)):
             v = self.as_value(v)
             if isinstance(v.t, TTuple) and len(v.t.items) == len(tgt.elts):
@@ -408,7 +411,7 @@ class StmtMixin:
             raise EngineError(f"while loop #{ordn} of {st.frame.target} has no invariant")
         # init
         for i, inv in enumerate(spec.invariant):
-            self.oblige(st, "inv-init", f"#{ordn}.{i}", self.spec_bool(inv, st), descr=f"loop invariant {inv!r} on entry",
+            self.oblige(st, "inv-init", f"#{ordn}.{i}", self.spec_goal(inv, st), descr=f"loop invariant {inv!r} on entry",
                         node=s)
         head = self.havoc_for_loop(st, s.body + [ast.Expr(value=s.test)])
         for inv in spec.invariant:
@@ -426,7 +429,7 @@ class StmtMixin:
                 for o in self.exec_block(s.body, st_in):
                     if o.kind in ("ok", "cnt"):
                         for i, inv in enumerate(spec.invariant):
-                            self.oblige(o.st, "inv-step", f"#{ordn}.{i}", self.spec_bool(inv, o.st),
+                            self.oblige(o.st, "inv-step", f"#{ordn}.{i}", self.spec_goal(inv, o.st),
                                         descr=f"loop invariant {inv!r} preserved", node=s)
                         if m0 is not None:
                             m1 = coerce(self.spec_eval(spec.decreases, o.st), INT).z
@@ -478,7 +481,7 @@ class StmtMixin:
         else:
             ghost0 = {"_i": mk_int(0), "_n": mk_int(d.length)}
         for i, inv in enumerate(spec.invariant):
-            self.oblige(st, "inv-init", f"#{ordn}.{i}", self.spec_bool(inv, st, ghost0),
+            self.oblige(st, "inv-init", f"#{ordn}.{i}", self.spec_goal(inv, st, ghost0),
                         descr=f"loop invariant {inv!r} on entry", node=s)
         head = self.havoc_for_loop(st, s.body, [ast.Assign(targets=[s.target], value=ast.Constant(value=None))],
                                    binder=lambda dry: self.bind_target(dry, s.target, fresh(d.et, "dry")))
@@ -513,7 +516,7 @@ class StmtMixin:
             for o in self.exec_block(s.body, st_b):
                 if o.kind in ("ok", "cnt"):
                     for i, inv in enumerate(spec.invariant):
-                        self.oblige(o.st, "inv-step", f"#{ordn}.{i}", self.spec_bool(inv, o.st, nxt_ghost),
+                        self.oblige(o.st, "inv-step", f"#{ordn}.{i}", self.spec_goal(inv, o.st, nxt_ghost),
                                     descr=f"loop invariant {inv!r} preserved", node=s)
                 elif o.kind == "brk":
                     yield Outcome("ok", o.st)
